@@ -389,22 +389,105 @@ def geom_bit(rank, file):
     return 1 << (rank * 8 + file)
 
 
+def index_form(t):
+    """Canonical shape of a magic index expression and what it is built from.
+
+    Returns (shape, entries, blockers): shape is a nested tuple over the symbols MASK, MAGIC, SHIFT, OFFSET (fields of a MagicEntry
+    term) and B (the blocker operand), with casts and Bitboard wrappers removed and the operands of commutative operators sorted;
+    entries = the distinct MagicEntry terms the fields are read from; blockers = the distinct non-entry leaves."""
+    entries, blockers = set(), set()
+
+    def unwrap(x):
+        while True:
+            if x[0] == 'cast':
+                x = x[1]
+            elif x[0] in ('ref', 'der') :
+                x = x[1]
+            elif x[0] == 'fld' and x[2] == '0' and x[1][0] == 'agg' and x[1][1] == 'adt' and len(x[1][4]) == 1:
+                x = x[1][4][0][1]
+            elif x[0] == 'agg' and x[1] == 'adt' and len(x[4]) == 1 and x[2].endswith('Bitboard'):
+                x = x[4][0][1]
+            else:
+                return x
+
+    def rec(x):
+        x = unwrap(x)
+        if x[0] == 'fld' and x[2] in ('mask', 'magic', 'shift', 'offset'):
+            entries.add(unwrap(x[1]))
+            return x[2].upper()
+        if x[0] == 'fld' and x[2] == '0':
+            inner = unwrap(x[1])
+            if inner[0] == 'fld' and inner[2] == 'mask':
+                entries.add(unwrap(inner[1]))
+                return 'MASK'
+            blockers.add(inner)
+            return 'B'
+        if x[0] == 'bin':
+            op = {'WMul': 'Mul', 'WAdd': 'Add'}.get(x[1], x[1])
+            a, b = rec(x[2]), rec(x[3])
+            if op in ('Mul', 'Add', 'BitAnd', 'BitOr', 'BitXor'):
+                a, b = sorted((a, b), key=repr)
+            return (op, a, b)
+        if x[0] == 'c':
+            return ('c', x[1])
+        blockers.add(x)
+        return 'B'
+    return rec(t), entries, blockers
+
+
+CORE_SHAPE = ('Shr', ('Mul', ('BitAnd', 'B', 'MASK'), 'MAGIC'), 'SHIFT')
+CORE_SHAPE = ('Shr', tuple(['Mul'] + sorted([('BitAnd',) + tuple(sorted(['B', 'MASK'], key=repr)), 'MAGIC'], key=repr)), 'SHIFT')
+FULL_SHAPE = tuple(['Add'] + sorted([CORE_SHAPE, 'OFFSET'], key=repr))
+
+
+def table_index_terms(o, table_pred, writes_only=False):
+    """index terms of every read / write of a lookup table on path o: Index::index / IndexMut::index_mut calls and idx projections"""
+    res = []
+    for e in o.events:
+        if e[0] == 'call' and ((e[1].endswith('Index<I>>::index') and not writes_only) or e[1].endswith('IndexMut<I>>::index_mut')) and table_pred(e[2][0]):
+            res.append(e[2][1])
+        if e[0] == 'write' and writes_only:
+            lv = e[1]
+            while lv[0] in ('der', 'fld', 'ref'):
+                lv = lv[1]
+            if lv[0] == 'idx' and table_pred(lv[1]):
+                res.append(lv[2])
+    if writes_only:
+        return [x for i_, x in enumerate(res) if x not in res[:i_]]
+    for t in ([o.value] if o.value else []) + [c[0] for c in o.conds]:
+        for s_ in subterms(t):
+            if s_[0] == 'call' and (s_[1].endswith('Index<I>>::index') or s_[1].endswith('IndexMut<I>>::index_mut')) and table_pred(s_[2][0]):
+                res.append(s_[2][1])
+            if s_[0] == 'idx' and table_pred(s_[1]):
+                res.append(s_[2])
+    uniq = []
+    for x in res:
+        if x not in uniq:
+            uniq.append(x)
+    return uniq
+
+
 def r3_index(ctx):
+    """writer (engine make_table), reader (get_*_targets, checked in R5) and generator (try_make_table) compute the same slot:
+    offset + (((blockers & mask) * magic) >> shift), the generator without the offset.  The expressions are taken where the tables
+    are indexed, with whatever helper computes them inlined, and compared in canonical form."""
     rule = 'C11.R3-index-agreement'
     facts = ctx.facts
-    e = Engine(facts).run(MT + 'magic_index')
-    g = Engine(facts).run(PM + 'magic_index')
-    ctx.touch(MT + 'magic_index', PM + 'magic_index')
-    ev_, gv = (e[0].value if len(e) == 1 else None), (g[0].value if len(g) == 1 else None)
-    ent = ('der', ('p', 1))
-    bl = ('fld', ('p', 2), '0')
-    core_e = ('cast', ('bin', 'Shr', ('bin', 'WMul', ('bin', 'BitAnd', bl, ('fld', ent, 'mask')), ('fld', ent, 'magic')), ('fld', ent, 'shift')), 'usize')
-    want_e = ('bin', 'Add', ('cast', ('fld', ent, 'offset'), 'usize'), core_e)
-    core_g = ('cast', ('bin', 'Shr', ('bin', 'WMul', ('bin', 'BitAnd', bl, ('fld', ('fld', ent, 'mask'), '0')), ('fld', ent, 'magic')), ('fld', ent, 'shift')), 'usize')
-    ok_e = ev_ in (want_e, ('bin', 'Add', core_e, want_e[2]))
-    ctx.ob(rule, MT + 'magic_index', 'offset + (((blockers & mask) * magic) >> shift)', ok_e, found=show(ev_) if ev_ else None, expected=show(want_e),
-           why='writer and reader of the tables must compute the same slot')
-    ctx.ob(rule, PM + 'magic_index', '((blockers & mask) * magic) >> shift', gv == core_g, found=show(gv) if gv else None, expected=show(core_g))
+    is_local_table = lambda t: True
+    for name, want, what, opq in ((MT + 'make_table', FULL_SHAPE, 'offset + (((blockers & mask) * magic) >> shift)', {MT + 'slider_moves'}),
+                                  (PM + 'try_make_table', CORE_SHAPE, '((blockers & mask) * magic) >> shift', {PM + 'SlidingPiece::targets'})):
+        try:
+            outs = Engine(facts, opaque=opq, max_paths=4000).run(name)
+        except PathLimit:
+            ctx.anchor_missing(rule, name, 'path limit')
+            continue
+        ctx.touch(name)
+        shapes = set()
+        for o in outs:
+            for it in table_index_terms(o, is_local_table, writes_only=True):
+                shapes.add(index_form(it)[0])
+        ctx.ob(rule, name, what, shapes == {want}, found=[repr(x)[:200] for x in shapes], expected=repr(want),
+               why='writer and reader of the tables must compute the same slot')
 
 
 def r4_acceptance(ctx):
@@ -499,22 +582,26 @@ def r5_wiring(ctx):
     facts = ctx.facts
     for m, consts, table in (('get_rook_targets', 'ROOK_MAGICS', 'rook_table'), ('get_bishop_targets', 'BISHOP_MAGICS', 'bishop_table')):
         name = MT + 'MagicTable::' + m
-        outs = Engine(facts, readonly={MT + 'magic_index'}).run(name)
+        outs = Engine(facts).run(name)
         ctx.touch(name)
         rets = [o for o in outs if o.kind == 'return']
-        ok = False
+        ok = bool(rets)
         found = None
         for o in rets:
-            v = o.value
-            found = show(v)[:200]
-            s = show(v)
-            tbl = [x[2] for x in subterms(v) if x[0] == 'fld' and x[2] in ('rook_table', 'bishop_table')]
-            mg = [x for x in subterms(v) if x[0] == 'call' and x[1] == MT + 'magic_index']
-            if tbl == [table] and len(mg) == 1:
-                a = mg[0][2]
-                ok = consts in show(a[0]) and 'trailing_zeros(arg2.0)' in show(a[0]) and a[1] == ('p', 3)
+            found = show(o.value)[:200]
+            own = lambda t, table=table: any(x[0] == 'fld' and x[2] == table and x[1] in (('der', ('p', 1)), ('p', 1)) for x in subterms(t))
+            other = lambda t, table=table: any(x[0] == 'fld' and x[2] in ('rook_table', 'bishop_table') and x[2] != table for x in subterms(t))
+            its = table_index_terms(o, own)
+            ok1 = len(its) == 1 and not table_index_terms(o, other)
+            if ok1:
+                shape, entries, blockers = index_form(its[0])
+                ent_ok = len(entries) == 1 and all(
+                    e_[0] == 'idx' and any(x[0] == 'named' and x[1].endswith('::' + consts) for x in subterms(e_[1]))
+                    and strip_cast(e_[2]) == ('call', 'trailing_zeros', (('fld', ('p', 2), '0'),), None) for e_ in entries)
+                ok1 = shape == FULL_SHAPE and ent_ok and blockers == {('p', 3)}
+            ok = ok and ok1
         ctx.ob(rule, name, '%s[magic_index(&%s[tz(square)], blockers)]' % (table, consts), ok, found=found,
-               expected='own constants with own table')
+               expected='own table indexed by offset + (((blockers & mask) * magic) >> shift) of the own constants at tz(square)')
 
 
 def r6_constants(ctx):
@@ -590,7 +677,7 @@ def _popcount_ev(t, env):
     return ev(t, env)
 
 
-def subset_walk(ctx, rule, name, opaque, idx_fn, val_fn, masks, what):
+def subset_walk(ctx, rule, name, opaque, val_fn, masks, what):
     """Decide that the fill loop of `name` performs one lookup-table write for EVERY subset of the mask.
 
     The loop is read off the MIR: loop-carried blocker set b (the argument of the index function), its initial value, the update
@@ -603,13 +690,24 @@ def subset_walk(ctx, rule, name, opaque, idx_fn, val_fn, masks, what):
         ctx.ob(rule, name, what + ': fill loop analysable', False, found='path limit')
         return
     ctx.touch(name)
-    mi = [e for o in outs for e in o.events if e[0] == 'call' and e[1] == idx_fn]
-    if not mi:
-        ctx.anchor_missing(rule, name + ' -> ' + idx_fn)
+    # the slot written in the loop: its index expression (helpers inlined) names the blocker set and the entry it is computed from
+    its = []
+    for o in outs:
+        for it in table_index_terms(o, lambda t: True, writes_only=True):
+            if it not in its:
+                its.append(it)
+    forms = [index_form(it) for it in its]
+    forms = [f_ for f_ in forms if f_[1]]
+    if not forms:
+        ctx.anchor_missing(rule, name, 'no table write indexed by a magic entry found')
         return
-    bl = mi[0][2][1]
-    while bl[0] in ('ref', 'der'):
-        bl = bl[1]
+    bls = {b_ for f_ in forms for b_ in f_[2]}
+    ents = {e_ for f_ in forms for e_ in f_[1]}
+    if len(bls) != 1 or len(ents) != 1:
+        ctx.ob(rule, name, what + ': one blocker set and one entry index the table', False, found={'blockers': [show(b_) for b_ in bls], 'entries': [show(e_) for e_ in ents]})
+        return
+    bl = next(iter(bls))
+    entry = next(iter(ents))
     if bl[0] != 'lv':
         ctx.ob(rule, name, what + ': the index is computed from the loop-carried blocker set', False, found=show(bl))
         return
@@ -630,12 +728,11 @@ def subset_walk(ctx, rule, name, opaque, idx_fn, val_fn, masks, what):
     for o in through:
         pos = max(i for i, e in enumerate(o.events) if e[0] == 'loop_head' and e[2] == H)
         evs = o.events[pos:]
-        idx = [e for e in evs if e[0] == 'call' and e[1] == idx_fn]
         val = [e for e in evs if e[0] == 'call' and e[1] == val_fn]
-        ended_before_body = not idx and not val and not any(e[0] == 'write' for e in evs)
+        ended_before_body = not val and not any(e[0] == 'write' for e in evs)
         if ended_before_body:
             continue
-        body_ok = body_ok and len(idx) == 1 and len(val) == 1 and _contains(idx[0][2][1], bl) and any(x == bl or _contains(x, bl) for x in val[0][2])
+        body_ok = body_ok and len(val) == 1 and any(x == bl or _contains(x, bl) for x in val[0][2])
     ctx.ob(rule, name, what + ': each iteration computes the attack set and the slot from the same blocker set', body_ok)
     cont = [o for o in through if o.kind == 'backedge' and o.where and o.where[1] == H]
     stop = [o for o in through if not (o.kind == 'backedge' and o.where and o.where[1] == H) and o.kind != 'abort'
@@ -673,9 +770,6 @@ def subset_walk(ctx, rule, name, opaque, idx_fn, val_fn, masks, what):
         else:
             leaves.add(('?', t))
     walk(F)
-    entry = mi[0][2][0]
-    while entry[0] in ('ref', 'der'):
-        entry = entry[1]
     mask_ok = len(leaves) == 1 and all(x[0] == 'fld' for x in leaves) and all(_contains(x, entry) and 'mask' in show(x) for x in leaves)
     ctx.ob(rule, name, what + ': the update walks the mask of the entry that is indexed', mask_ok, found=[show(x) for x in leaves], expected='<entry>.mask')
     if not mask_ok:
@@ -789,9 +883,9 @@ def r7_fill_loops(ctx):
             return
         for i, e in enumerate(v[1]):
             masks.append((i, dict(e[3])['mask']))
-    n1 = subset_walk(ctx, rule, MT + 'make_table', {MT + 'slider_moves', MT + 'magic_index'}, MT + 'magic_index', MT + 'slider_moves', masks, 'engine table')
+    n1 = subset_walk(ctx, rule, MT + 'make_table', {MT + 'slider_moves'}, MT + 'slider_moves', masks, 'engine table')
     gm = [(i, relevant_mask(i, d)) for d in (ROOK_DIRS, BISHOP_DIRS) for i in range(64)]
-    n2 = subset_walk(ctx, rule, PM + 'try_make_table', {PM + 'SlidingPiece::targets', PM + 'magic_index'}, PM + 'magic_index', PM + 'SlidingPiece::targets', gm,
+    n2 = subset_walk(ctx, rule, PM + 'try_make_table', {PM + 'SlidingPiece::targets'}, PM + 'SlidingPiece::targets', gm,
                      'generator collision test')
     ctx.floor(rule, 'subset-walk steps evaluated', (n1 or 0) + (n2 or 0), 2 * (102400 + 5248))
 
